@@ -14,7 +14,7 @@ META = {
             "the reviewed constructor sites (no TextRange::new/at/empty/up_to, no TextSize arithmetic elsewhere); A2 every "
             "NavigationTarget and every search hit pairs a range with the file of the node the range was read from; A3 syntax errors "
             "carry the current token's range or the empty range at the end of the text, and no other Error value is built; A4 name-like "
-            "nodes wrap exactly one token (C07/N1). One obligation per constructor site / aggregate. A6 = C13/D6 (the analysis is told about every file the store adds or removes); A7 = C13/D10.",
+            "nodes wrap exactly one token (C07/N1). One obligation per constructor site / aggregate. A6 = C13/D6 (the analysis is told about every file the store adds or removes); A7 = C13/D10; A9 = C13/D4; A8 = C13/D9 (the analysis receives the last text recorded for a file, the one the store converts with).",
     "explanation": "A range read off a node or token of parse(file) lies inside that file and on character boundaries by C01 (the tree "
                    "is lossless). So it suffices that every range the analysis reports is such a range, paired with the right file. "
                    "That is a who-may-construct rule over the resolved MIR, checked for every site; conversion to LSP positions is C14.",
@@ -202,6 +202,9 @@ def run(F, res, tier):
     # positions are converted through LineMap in both directions: writer and readers of its table use one coordinate system (C13/D10)
     from rules import c13 as _c13lm
     _c13lm.line_map_coordinates_agree(F, res, rule="A7")
+    # ranges are computed on the text the analysis holds and converted with the store's line map: the two must be the same text
+    _c13lm.last_text_wins(F, res, rule="A8")
+    _c13lm.analysis_gets_every_recorded_text(F, res, rule="A9")
 
 
 def thorough(F, res):
